@@ -7,6 +7,7 @@ import (
 	"path/filepath"
 	"strings"
 	"testing"
+	"unicode/utf8"
 
 	"github.com/apparentlymart/go-versions/versions"
 	"github.com/hashicorp/go-slug/sourceaddrs"
@@ -154,13 +155,18 @@ func checkComplete(w world.World) error {
 		m := b.RemotePackageMeta(pa)
 		wantID, wantMsg := "", ""
 		if rp.Meta != nil {
-			wantID, wantMsg = rp.Meta.CommitID, rp.Meta.Message
+			wantID, wantMsg = rp.Meta.CommitID, world.RawText(rp.Meta.Message)
 		}
 		gotID, gotMsg := "", ""
 		if m != nil {
 			gotID, gotMsg = m.GitCommitID(), m.GitCommitMessage()
 		}
 		if gotID != wantID || gotMsg != wantMsg {
+			if gotID == wantID && !utf8.ValidString(wantMsg) && ev.IsKnown("c08-meta-invalid-utf8-altered") {
+				// the JSON manifest cannot carry bytes that are not valid UTF-8
+				ev.Excluded("c08-meta-invalid-utf8-altered")
+				continue
+			}
 			if wantID == "" && wantMsg != "" && ev.IsKnown("c08-meta-message-without-commit") {
 				ev.Excluded("c08-meta-message-without-commit")
 				continue
@@ -269,6 +275,19 @@ func checkPath(w world.World, root string, src sourceaddrs.RemoteSource, p strin
 		if err != nil || string(mk) != "content:"+rp.Content {
 			return fmt.Errorf("%s: package directory of %q holds marker %q (%v), want content:%s", src, p, mk, err, rp.Content)
 		}
+	} else if rp.HasDir(src.SubPath()) {
+		// a directory of the package that is not a module location (it may be empty)
+		if !exists || !fi.IsDir() {
+			// known finding: a package whose copy was dropped in favour of an earlier package
+			// with the same file paths and contents loses the empty directories only it had
+			for _, other := range w.Remotes {
+				if other.Addr != rp.Addr && other.Content == rp.Content && !other.HasDir(src.SubPath()) && ev.IsKnown("c08-coalesced-package-loses-empty-dir") {
+					ev.Excluded("c08-coalesced-package-loses-empty-dir")
+					return nil
+				}
+			}
+			return fmt.Errorf("%s: the fetched package contains the directory %q but %q does not exist as a directory (%v)", src, src.SubPath(), p, err)
+		}
 	} else if exists && src.SubPath() != "" {
 		// an absent sub-path must not materialise out of nowhere
 		hasPrefixModule := false
@@ -296,7 +315,7 @@ func pkgRootOf(p, sub string) string {
 
 func TestPropComplete(t *testing.T) {
 	ev.Check(t, subComplete, func(t *rapid.T) world.World {
-		return world.Gen(t, world.Config{MaxRemotes: 4, MaxRegistry: 3, NFinders: nFinders, Clones: true, Meta: true, OddSubPaths: true, Twins: false})
+		return world.Gen(t, world.Config{MaxRemotes: 4, MaxRegistry: 3, NFinders: nFinders, Clones: true, Meta: true, OddSubPaths: true, Twins: false, EmptyDirClones: true})
 	})
 }
 
